@@ -3,9 +3,9 @@ import re
 CONFIG = dict(
     bin="c10",
     drv="drv_c10",
-    lean_modules=["MahfModel.Props.C10"],
+    lean_modules=["MahfModel.Props.C10", "MahfModel.Props.C10Nested"],
     namespaces=["MahfModel.Props.C10"],
-    shrink_lists=["vals", "words"],
+    shrink_lists=["vals", "words", "items", "script"],
     level="proof",
     rule=("Condition::evaluate on prepared States: LessThanN over Iterations / Evaluations / a float-valued state for all "
           "(n, value) on the grid {0,1,2,3,10,u32::MAX-1,u32::MAX} (floats: zeros, 0.5..3, 1e308, +-inf, NaN, -1, 5e-324) plus "
@@ -38,7 +38,19 @@ CONFIG = dict(
           "iterations(n) & evaluations(m), iterations(n) | evaluations(m) and !(!.. | !..) built with the operators & | ! (n, m on a grid and random, "
           "step 0..9), logging both counters and both Progress values at every test; the operator forms in the formula cases (all binary "
           "formulas of depth 2 under all 27 assignments, random depth 3), every operand also logging its init; LessThanN::new / EveryN::new over a "
-          "user-defined u32 state. A case is non-trivial unless it is a LessThanN grid point with n = 0 or an empty "
+          "user-defined u32 state; the conditions on NESTED states (State::with_inner_state, depth 1..3): scripts of insert-into-the-top-registry / "
+          "set-nearest / BestIndividual::update-nearest / init / evaluate / enter-an-inner-state over OptimumReached, LessThanN and EveryN over "
+          "Iterations, Evaluations and two user-defined states, LessThanN over the best objective value, ChangeOf over the u32 lenses and over "
+          "BestObjectiveValueLens (both checkers) — ladders (outer value absent / empty / within / far x inner shadow nothing / empty / within / far "
+          "(counters: absent, below, at, above the bound) x shadow inserted 0..2 levels down x evaluated 0..2 levels below the shadow x with/without "
+          "init at the root / at the shadow, an evaluation before and after every step and after leaving) and seeded random scripts (one kind of "
+          "condition or a mix of up to 4, optimum 0 or 1), every evaluation logging its result and, for LessThanN, the Progress readable in that "
+          "state; a nested search built with the real builder and run with Configuration::run: the outer level holds a best individual "
+          "(update_best_individual) or none, 1..3 nested scope_ each with or without its own update_best_individual, innermost "
+          "while_(!OptimumReached(eps) & iterations(k)) whose body feeds scripted objective values to the nearest BestIndividual (the real "
+          "BestIndividualUpdate where the scope keeps its own), all of eps in {0, 0.5} x k in {0,1,3,5} x 4 outer values x 14 scope stacks x 7 scripts "
+          "plus random ones, logging verdict, counter and the nearest BestIndividual at every test, the passes and the root's best afterwards. "
+          "A case is non-trivial unless it is a LessThanN grid point with n = 0 or an empty "
           "history/formula; distinct = distinct input."),
     nontrivial=lambda inp: not re.match(r"\(lt [uefo] (0|x0000000000000000) ", inp) and "(vals)" not in inp and len(inp) > 10,
     trusted_base=[
@@ -46,7 +58,9 @@ CONFIG = dict(
         "relabelling of the 2^64 words is legal, theorem randomChance_prob_any_mapping) — that floor(p*2^64) of them fire is evidenced by the "
         "sweep (4096 equidistant held words, within 2) and the frequency tests (statistical, 5 sigma), not proved about the code",
         "rand's ChaCha12 generator delivers uniformly distributed words (frequency tests)",
-        "State registry access (insert / set_value / try_borrow_value_mut) behaves as a typed map (C01/C02)",
+        "State registry access (insert / set_value / try_borrow_value_mut) behaves as a typed map (C01/C02); the registry chain of nested states "
+        "(insert writes the top registry, every lookup finds the innermost holder, a child registry is dropped on leaving: C01/C03) is MODELLED in "
+        "Model/ConditionsNested.lean and tied by K on the nested cases, not proved about the code",
         "u32 -> f64 conversion and IEEE division for the progress value (the driver uses native doubles)"],
     assumptions=["SplitMix64-seeded case generator", "RandomChance draws from state.random_mut() only (a held-word generator is substituted through Random::with_rng)", "the loop body leaves the loop counter alone (Iterations) or adds a fixed step (Evaluations)",
                  "counters stay below 2^32 (u32 overflow is not modelled)",
@@ -54,7 +68,11 @@ CONFIG = dict(
                  "the same block) share one Iterations counter; the exact-count theorems are stated for well-scoped trees (every loop the only one on its "
                  "level); for the others the model is tied by K, the less-than-n clause is checked at every test, and the sharing is recorded as theorems "
                  "unscoped_nest_shares_counter / sequential_loops_share_counter",
-                 "scopes / Block::init lifecycle of ChangeOf are modelled and checked by K/O; the independence theorem is stated for one registry level"],
+                 "scopes / Block::init lifecycle of ChangeOf are modelled and checked by K/O; the independence theorem is stated for one registry level",
+                 "'the state a condition is evaluated on' is read as: for every state type, the value of the innermost registry of the chain that holds it "
+                 "(an inner, still empty BestIndividual means: no best value exists there, whatever an enclosing scope has found); where that state sees no "
+                 "value at all (no counter / no best value for a lens) O only demands that the condition does not answer true (K pins the Err)",
+                 "nested-search cases use objective values and tolerances that are multiples of 1/8 (both roundings of 'within eps' agree), optimum 0"],
 )
 CONFIG.update(
     level_text=("Lean 4 theorems: LessThanN is true iff value < n and writes value/n; a Loop guarded by LessThanN over the iteration "
@@ -77,6 +95,17 @@ CONFIG.update(
                 "an operand error aborts after a prefix; RandomChance: under the threshold test applied after ANY bijective relabelling of the words exactly "
                 "floor(p*2^64) of the 2^64 words fire (gen_bool's lower end and the upper end are instances), always for p = 1, and a sweep of N equidistant "
                 "words counts floor(m/D) or floor(m/D)+1 of them. "
+                "On NESTED states (registry chain, innermost first; Props/C10Nested.lean): the lookup finds exactly the innermost holder "
+                "(lookup_is_innermost); OptimumReached on ANY chain is true iff the innermost registry holding a BestIndividual holds a value within eps "
+                "(optimumReached_nested_iff), false whenever that BestIndividual is still empty, whatever the enclosing registries hold "
+                "(optimumReached_shadowed_empty / _value); LessThanN / EveryN on any chain decide about the value of the innermost holder of the observed "
+                "state, err iff no registry holds it, and write value/n to the innermost Progress only (lessThanN_nested_iff, lessThanN_nested_progress, "
+                "everyN_nested_iff); one ChangeOf evaluation compares the innermost observed value with the innermost Previous, writes only that registry, "
+                "errs iff the state sees no value or no memory, and after an init inside a nested state the first evaluation fires whatever the outer memory "
+                "holds (changeOf_nested_step, changeOf_nested_fresh); a search nested in any stack of scopes around while !OptimumReached(eps) & iterations<k "
+                "makes exactly the first pass count at which its OWN state's best value (nothing of the outer best once a scope keeps its own) is within eps or "
+                "k is reached, logs the specified tests, and leaves the root's best untouched / updated accordingly (nested_search_exact, nested_search_total, "
+                "nested_search_ignores_outer_best). "
                 "Tied to /repo by running the real conditions, the real Loop / Scope / Configuration::run (through the real builder), the operator "
                 "impls & | ! and rand's gen_bool on generated cases and diffing against "
                 "the compiled model (K) and the specification-side predicates (O)."),
@@ -90,5 +119,10 @@ CONFIG.update(
                 "sequential_loops_share_counter): two loops one after the other in the same block share Iterations, so after a loop bounded by 5 a loop "
                 "bounded by 3 makes no pass. init propagation of And/Or/Not is compared by K (as a multiset) and shows in O through the composite-guarded "
                 "loops. Known findings: two ChangeOf over the same lens type on one registry level share their memory; ChangeOf + DeltaEqChecker<SingleObjective> "
-                "fires on every evaluation while the value stays +inf (inf - inf = NaN). (EveryN with n = 0 was repaired in /repo c00d550.)"),
+                "fires on every evaluation while the value stays +inf (inf - inf = NaN). (EveryN with n = 0 was repaired in /repo c00d550.) "
+                "Nested states: the theorems are about the modelled registry chain (nearest-holder lookup, top-registry insert, child dropped); that the real "
+                "StateRegistry behaves so is the subject of C01/C03 and is here only tied by K. The nested cases enter inner states through "
+                "State::with_inner_state (scripts) and through the real Scope (nested search, chgm/nest cases); conditions built by composition (And/Or/Not) "
+                "are exercised on nested states only in the nested search. ChangeOf over the best objective value with DeltaEqChecker is not driven to +inf "
+                "in the nested cases (known finding at its own site)."),
 )
